@@ -298,7 +298,7 @@ package oras
 //@   entry set ecTagged = false
 //@   call dst.Tag set ecTagged = ecTagged || (result == nil && args.reference == (dstRef0 == "" ? srcRef : dstRef0) && args.desc == node)
 //@   call ExtendedCopyGraph requires [C03:copies-the-resolved-node] args.node == node && args.opts == opts.ExtendedCopyGraphOptions
-//@   ensures@5 [C03:tags-node] result1 == nil ==> ecTagged && result0 == node
+//@   ensures [C03:tags-node] result1 == nil ==> ecTagged && result0 == node
 //@
 //@ import copyutil "oras.land/oras-go/v2/internal/copyutil"
 //@ pure isPredOf(p descriptor.Descriptor, c descriptor.Descriptor) bool
@@ -365,7 +365,7 @@ package oras
 //@   loop 0 backedge set fatEff($i) = p.ArtifactType
 //@   loop 0 backedge set fatSrc(len(kept)) = $i
 //@   loop 0 backedge set fatPos($i) = len(kept)
-//@   ensures@4 [C03:followed-exactly-when-type-matches] (forall j int :: 0 <= j && j < len(result0) ==> 0 <= fatSrc(j) && fatSrc(j) < len(predecessors) && reMatch(regex, fatEff(fatSrc(j))) && result0[j].ArtifactType == fatEff(fatSrc(j)) && K(result0[j]) == K(predecessors[fatSrc(j)])) && (forall i int :: 0 <= i && i < len(predecessors) && reMatch(regex, fatEff(i)) ==> 0 <= fatPos(i) && fatPos(i) < len(result0) && fatSrc(fatPos(i)) == i) && (forall i int :: 0 <= i && i < len(predecessors) ==> fatEff(i) == (predecessors[i].ArtifactType != "" ? predecessors[i].ArtifactType : (fetchableAT(predecessors[i].MediaType) ? fatFetched(i) : "")))
+//@   ensures [C03:followed-exactly-when-type-matches] result1 == nil && !(fp == nil && implements(src, registry.ReferrerLister)) ==> (forall j int :: 0 <= j && j < len(result0) ==> 0 <= fatSrc(j) && fatSrc(j) < len(predecessors) && reMatch(regex, fatEff(fatSrc(j))) && result0[j].ArtifactType == fatEff(fatSrc(j)) && K(result0[j]) == K(predecessors[fatSrc(j)])) && (forall i int :: 0 <= i && i < len(predecessors) && reMatch(regex, fatEff(i)) ==> 0 <= fatPos(i) && fatPos(i) < len(result0) && fatSrc(fatPos(i)) == i) && (forall i int :: 0 <= i && i < len(predecessors) ==> fatEff(i) == (predecessors[i].ArtifactType != "" ? predecessors[i].ArtifactType : (fetchableAT(predecessors[i].MediaType) ? fatFetched(i) : "")))
 //@
 //@ ghost local fanEff(i int) map[string]string
 //@ ghost local fanFetched(i int) map[string]string
@@ -385,7 +385,7 @@ package oras
 //@   loop 0 backedge set fanEff($i) = p.Annotations
 //@   loop 0 backedge set fanSrc(len(kept)) = $i
 //@   loop 0 backedge set fanPos($i) = len(kept)
-//@   ensures@4 [C03:followed-exactly-when-annotation-matches] (forall j int :: 0 <= j && j < len(result0) ==> 0 <= fanSrc(j) && fanSrc(j) < len(predecessors) && annOK(fanEff(fanSrc(j)), key, regex) && result0[j].Annotations == fanEff(fanSrc(j)) && K(result0[j]) == K(predecessors[fanSrc(j)])) && (forall i int :: 0 <= i && i < len(predecessors) && annOK(fanEff(i), key, regex) ==> 0 <= fanPos(i) && fanPos(i) < len(result0) && fanSrc(fanPos(i)) == i) && (forall i int :: 0 <= i && i < len(predecessors) ==> fanEff(i) == (predecessors[i].Annotations != nil ? predecessors[i].Annotations : (isManifestMT(predecessors[i].MediaType) ? fanFetched(i) : nil)))
+//@   ensures [C03:followed-exactly-when-annotation-matches] result1 == nil && !(fp == nil && implements(src, registry.ReferrerLister)) ==> (forall j int :: 0 <= j && j < len(result0) ==> 0 <= fanSrc(j) && fanSrc(j) < len(predecessors) && annOK(fanEff(fanSrc(j)), key, regex) && result0[j].Annotations == fanEff(fanSrc(j)) && K(result0[j]) == K(predecessors[fanSrc(j)])) && (forall i int :: 0 <= i && i < len(predecessors) && annOK(fanEff(i), key, regex) ==> 0 <= fanPos(i) && fanPos(i) < len(result0) && fanSrc(fanPos(i)) == i) && (forall i int :: 0 <= i && i < len(predecessors) ==> fanEff(i) == (predecessors[i].Annotations != nil ? predecessors[i].Annotations : (isManifestMT(predecessors[i].MediaType) ? fanFetched(i) : nil)))
 //@
 //@ // page callbacks handed to ReferrerLister.Referrers: every referrer of the page that
 //@ // passes the filter is appended, nothing else is, earlier results stay
